@@ -45,7 +45,7 @@ def ctl_cases(pid):
                                                                              ev("write", wid=2, off=0, len=4096), ev("read", off=0, len=4096), ev("verify", a=1), ev("read", off=0, len=4096)]))
         C.append(dict(rf=3, world=world(4), events=boot(3, 0, [1]) + [ev("addcheck", a=2), ev("addcommit", a=2), ev("addcheck", a=3), ev("addcommit", a=3), ev("verify", a=3), ev("verify", a=2)]))
         C.append(dict(rf=3, world=world(4, revs={3: 50}), events=boot(3, 0, [1]) + [ev("addcheck", a=2), ev("addcommit", a=2), ev("addcheck", a=3), ev("addcommit", a=3), ev("verify", a=2), ev("verify", a=3)]))
-        for k in ("http", "rev", "setmoderw", "setrev"):
+        for k in ("http", "rev", "revneg", "setmoderw", "setrev"):
             for who in (0, 1):
                 C.append(dict(rf=2, world=world(2), events=boot(2, 0, []) + [ev("addcheck", a=1), ev("addcommit", a=1), ev("verify", a=1, fs=fl((who, k))),
                                                                              ev("read", off=0, len=4096), ev("verify", a=1), ev("read", off=0, len=4096)]))
